@@ -160,6 +160,11 @@ func runC03(c *Ctx) {
 						// (CN, serial) pair — and with it a certificate object name — of an earlier key
 						cn := []string{"signer cn", "signer cn", "signer cn b", fmt.Sprintf("signer cn %d", state)}[r.Intn(4)]
 						serial := int64([]int{2, 3, 3, 2 + state, 2 + state}[r.Intn(5)])
+						if r.Intn(6) == 0 {
+							// the new signing key named exactly like the root key (same common name and subject serial):
+							// a leaf that looks self-issued by name must still be recorded as a signing key, not as the root
+							cn, serial = "root cn", 1
+						}
 						c.Count(fmt.Sprintf("rotate/cn-pool=%v,serial-repeat=%v", cn == "signer cn", serial != int64(2+state)))
 						if st.storeBacked() && usedObj[fmt.Sprintf("%s-%d", cn, serial)] {
 							// The object name is the one the manifest records for an earlier key version: gcsca.upload
@@ -196,12 +201,18 @@ func runC03(c *Ctx) {
 					// endorse in this state
 					img := cleanFirmware(2*1024*1024, byte(1+r.Intn(200)))
 					ts := baseTime.Add(time.Duration(r.Intn(5000)) * time.Hour)
+					// an SVSM measurement supplied with the request (48 bytes) in half of the endorsements, whatever
+					// VMSA counts the request asks for
+					var svsm []byte
+					if r.Intn(2) == 0 {
+						svsm = r.Bytes(48)
+					}
 					ec := &endorse.Context{
 						SevSnp: &sev.SnpEndorsementRequest{Svn: uint32(r.Intn(4)), Product: spb.SevProduct_SEV_PRODUCT_MILAN,
-							LaunchVmsas: uint32([]int{0, 1, 4}[r.Intn(3)])},
+							LaunchVmsas: uint32([]int{0, 1, 4, 240}[r.Intn(4)])},
 						Tdx: &tdx.EndorsementRequest{Svn: 1, IncludeEarlyAccept: r.Intn(3) != 0,
 							MachineShapes: [][]string{nil, {"c3-standard-4"}, {"c3-standard-4", "c3-standard-8"}, {"c3-standard-8", "c3-standard-22", "c3-standard-4"}}[r.Intn(4)]},
-						Image: img, ClSpec: uint64(1 + r.Intn(9)), Timestamp: ts,
+						Image: img, ClSpec: uint64(1 + r.Intn(9)), Timestamp: ts, SvsmSnpMeasurement: svsm,
 						VCS: &localnonvcs.T{Root: vdir}, OutDir: fmt.Sprintf("s%d", state),
 					}
 					if err := endorse.VirtualFirmware(endorse.NewContext(ctx0, ec)); err != nil {
@@ -366,6 +377,19 @@ func c03Listed(c *Ctx, st *c03Stack, e *c03End, root *x509.Certificate, quoteV4 
 		c.Count("listed-snp")
 		if err != nil {
 			c.Find("c03/listed/snp-rejected", "a measurement the endorsement lists is rejected for its own VMSA count: "+err.Error(), op)
+		}
+	}
+	// the SVSM measurement is listed for the single-VMSA (SVSM) launch, whichever other counts are listed
+	if sv := e.golden.GetSevSnp().GetSvsmMeasurement(); len(sv) > 0 {
+		for _, n := range []uint32{1, 0} {
+			err := verify.EndorsementProto(end, &verify.Options{RootsOfTrust: pool, Now: now,
+				SNP: &verify.SNPOptions{Measurement: sv, ExpectedLaunchVMSAs: n}})
+			op := fmt.Sprintf("c03 op=listed-snp g=%s n=%d m=%s", sevLine(stripBundle(e.golden.SevSnp)), n, hx(sv))
+			c.Case(op, okrej(err == nil), true)
+			c.Count(fmt.Sprintf("listed-svsm/one-vmsa-entry-listed=%v", e.golden.SevSnp.Measurements[1] != nil))
+			if err != nil {
+				c.Find("c03/listed/svsm-rejected", fmt.Sprintf("the SVSM measurement the endorsement lists is rejected for expected launch VMSAs %d: %v", n, err), op)
+			}
 		}
 	}
 	for _, row := range e.golden.GetTdx().GetMeasurements() {
